@@ -5,7 +5,7 @@ From Coq Require Import List NArith Bool Arith Lia String.
 From SV Require Import lib.Bytes sieve.Lexer sieve.Tables sieve.ArgCheck sieve.ArgSpec sieve.Machine
   gen.GenTables sieve.ArgCheckFacts sieve.TotalFacts sieve.CompleteFacts sieve.CompleteTree.
 Import ListNotations.
-Open Scope string_scope.
+Local Open Scope string_scope.
 
 Definition q (s : string) : bytes := ((34%N :: bs s) ++ [34%N])%list.
 
